@@ -129,6 +129,12 @@ def make_proj(sc, pcfg):
     from sarpy.processing.ortho_rectify import PGProjection
     from sarpy.geometry.geocoords import wgs_84_norm
     sp = pcfg.get('spacing') or [None, None]
+    if pcfg.get('spacing_after') and sp[0] is not None:
+        # the spacings are assigned AFTER construction (as kmz_product_creation does to coarsen the grid): same projection as passing them in
+        ph = make_proj(sc, dict(pcfg, spacing=None, spacing_after=False))
+        ph.row_spacing = sp[0]
+        ph.col_spacing = sp[1]
+        return ph
     if pcfg['frame'] == 'default':
         return PGProjection(sc.sicd, row_spacing=sp[0], col_spacing=sp[1])
     ref = sc.sicd.GeoData.SCP.ECF.get_array()
@@ -507,7 +513,7 @@ def run(tier):
             if geom['frame'] == 'rot':
                 spacings = [s or [1.0, 1.0] for s in spacings]
             for si, sp in enumerate(spacings):
-                pcfg = {'frame': geom['frame'], 'theta': theta, 'refpix': refpix, 'spacing': sp}
+                pcfg = {'frame': geom['frame'], 'theta': theta, 'refpix': refpix, 'spacing': sp, 'spacing_after': sp is not None and rng.random() < 0.5}
                 base = {'scene': sc.cfg, 'geometry': geom['name'], 'proj': pcfg, 'pad': pad}
                 group = []      # (case, product) sharing scene / projection / bounds / pad / depth: pixel arrays must be identical
 
